@@ -23,7 +23,7 @@ ASSUMPTIONS = [
 ]
 
 def plan(tier):
-    return dict(runs=4000 if tier == 'quick' else 480000, timeout=900 if tier == 'quick' else 10800)
+    return dict(runs=4000 if tier == 'quick' else 480000, timeout=900 if tier == 'quick' else 21600)
 
 class Budget:
     """Bounded-progress monitor. A ticking rule applied twice to the same node on the same branch
